@@ -2,9 +2,10 @@
    a sequence of document updates.  After every step the harness dumped the whole graph
    (compared here with the model's run of the same history) and an id-free view of what the
    server answers, once from the incrementally updated database and once from a database
-   built from scratch on the current texts. *)
+   built from scratch on the current texts.  After the last step patch graphs were built from
+   trees the way the server builds them (Check_Patch.v) and dumped. *)
 From Coq Require Import ZArith.
-From IweV Require Export Check_Norm ArenaWF Index Paths.
+From IweV Require Export Check_Norm ArenaWF Index Paths Check_Patch.
 Local Open Scope string_scope.
 Local Open Scope list_scope.
 
@@ -56,7 +57,8 @@ Record histcase := HC {
   hc_titles : list (string * option string);
   hc_hnotes : list hnote;
   hc_tables : list (string * list string);
-  hc_steps : list step
+  hc_steps : list step;
+  hc_patches : list patch_raw       (* patch graphs built from trees after the last step *)
 }.
 
 (* ---------- the model's run of the history ---------------------------------------------- *)
@@ -233,8 +235,22 @@ Definition hist_nontrivial (c : histcase) : bool :=
    class is left and every failure on such a history is a violation) *)
 Definition hist_classes (c : histcase) : list N := [].
 
+(* patch-graph constructions from trees after the last step (Check_Patch.v): stages 10-11 against
+   TreeBuild.build_key_from_iter on the empty patch arena, sub-properties 4-7 on the
+   implementation's patch arenas *)
+(* the collected trees of the last state that was dumped (the graph the patches were made from) *)
+Definition last_notes (c : histcase) : list hnote :=
+  fold_left (fun acc s => if is_ok (st_arena s) then st_notes s else acc) (hc_steps c) (hc_hnotes c).
+Definition last_lookup (c : histcase) : string -> option tree :=
+  fun k => match find (fun o => String.eqb (hn_key o) k) (last_notes c) with
+           | Some o => match hn_tree o with Ok t => Some t | Panic _ => None end
+           | None => None
+           end.
+Definition hist_patch_corr (c : histcase) : list N := patch_corr (last_lookup c) (hc_patches c).
+Definition hist_patch_wf (c : histcase) : list N := nodup N.eq_dec (patch_props (last_lookup c) (hc_patches c)).
+
 Definition run_C20 (c : histcase) : verdict :=
-  V (hist_corr c) (hist_wf c) (hist_classes c) (hist_nontrivial c).
+  V (hist_corr c ++ hist_patch_corr c) (hist_wf c ++ hist_patch_wf c) (hist_classes c) (hist_nontrivial c).
 
 (* known-finding class 3 of C04 (F-SEARCHTIE, DESIGN F15): at some state of the history two listed
    search paths TIE under both comparators - Graph::search_paths orders by node_rank (descending),
@@ -321,4 +337,5 @@ Definition run_C04 (c : histcase) : verdict :=
   V (dedup_stages (hist_corr c ++ hist_index_corr c)) f k (hist_nontrivial c).
 
 Definition run_HIST (c : histcase) : verdict :=
-  V (hist_corr c) (hist_c04 c ++ map (fun x => (10 + x)%N) (hist_wf c)) (hist_classes c) (hist_nontrivial c).
+  V (hist_corr c ++ hist_patch_corr c)
+    (hist_c04 c ++ map (fun x => (10 + x)%N) (hist_wf c ++ hist_patch_wf c)) (hist_classes c) (hist_nontrivial c).
